@@ -22,13 +22,35 @@ def ev(x, t):
 
 
 def main():
+    import decimal
+    import fractions
+
     spec = json.load(open(sys.argv[1]))
     first = [ev(x, t) for x, t in spec["first"]]
+    # the second set of points is FIRST asked for with the same numbers in wrong types (whatever happens is swallowed) ...
+    for x, t in spec.get("second", []):
+        for conv in (decimal.Decimal, fractions.Fraction, str, lambda z: None):
+            try:
+                bx, bt = conv(x), conv(t)
+            except Exception:  # noqa: BLE001
+                continue
+            for args in ((bx, t), (x, bt), (bx, bt)):
+                for f in (c.v, c.w, c.vt, c.wt):
+                    try:
+                        f(*args)
+                    except Exception:  # noqa: BLE001
+                        pass
+            try:
+                c.phi_major(bx)
+            except Exception:  # noqa: BLE001
+                pass
+    # ... and then properly
+    second = [ev(x, t) for x, t in spec.get("second", [])]
     rng = random.Random(spec["prng"])
     for _ in range(spec["K"]):
         ev(rng.uniform(-12.0, 12.0), 10.0 ** rng.uniform(-8.0, -2.0))
-    again = [ev(x, t) for x, t in spec["first"]]
-    json.dump({"first": first, "again": again}, sys.stdout)
+    json.dump({"first": first, "first_again": [ev(x, t) for x, t in spec["first"]],
+               "second": second, "second_again": [ev(x, t) for x, t in spec.get("second", [])]}, sys.stdout)
 
 
 if __name__ == "__main__":
